@@ -13,7 +13,8 @@ EXTENDS VecVal, Json
 
 CONSTANTS MaxLen,      \* maximal number of nodes of a generated expression
           MaxVec,      \* maximal number of vector leaves (repeated symbols count)
-          VecLeaves,   \* vector leaf indices: 1..4 vector symbols a b c d, 5..7 vector functions f(t) g(t) h(t)
+          VecLeaves,   \* vector leaf indices: 1..4 vector symbols a b c d, 5..7 vector functions f(t) g(t) h(t),
+                       \* 8, 9 vector functions at a scaled parameter p(2t), q(-t) (derivative by the chain rule)
           ScalLeaves,  \* scalar leaf indices: 1 = x, 2 = y, 3 = the parameter t
           Ints,        \* integer literals
           Pows,        \* exponents of the power node
@@ -36,7 +37,8 @@ NVec == Cardinality({i \in DOMAIN prog : prog[i][1] = "vec"})
 Used(i) == \E j \in DOMAIN prog : prog[j] = <<"vec", i>>
 \* canonical naming: a new symbol (function) is the smallest unused one of its group, so that programs
 \* equal up to renaming are generated once; the harness applies every renaming through the creation order
-Group(i) == IF i <= 4 THEN {j \in VecLeaves : j <= 4} ELSE {j \in VecLeaves : j > 4}
+Group(i) == IF i <= 4 THEN {j \in VecLeaves : j <= 4}
+            ELSE IF i <= 7 THEN {j \in VecLeaves : j > 4 /\ j <= 7} ELSE {i}     \* 8, 9: p(2t), q(-t), not interchangeable
 Fresh(i) == \A j \in Group(i) : j < i => Used(j)
 
 \* least number of further nodes that reduce n stack entries to one
